@@ -12,7 +12,7 @@ theorem roles_nodup (f : MField) (hn : f.axisKeys.Nodup) : (wfAx f).roles.Nodup 
   · exact (sortKeys_perm f.axisKeys).nodup_iff.mpr hn
 
 section
-variable {o : Opts} {f : MField} {names : List (Slot × String)} (hwf : WFField f)
+variable {o : Opts} {f : MField} {names : List (Slot × String)} (hwf : WFFieldB f)
 include hwf
 
 theorem cons_nodup : f.cons.Nodup := List.Nodup.of_map _ hwf.2.1
@@ -71,22 +71,35 @@ theorem mem_scalarDims {e : Entry} : e ∈ (wfAx f).roles.filterMap scalarOf ↔
     rw [hdc]
     simp [hd]
 
-/-- The reader creates every construct exactly once. -/
-theorem readOrder_perm : (readOrder f).Perm f.cons := by
-  rw [List.perm_ext_iff_of_nodup _ (cons_nodup hwf)]
+/-- The constructs of the field other than the domain ancillaries. -/
+def consA (f : MField) : List Entry := f.cons.filter (fun e => e.con.ctype != .dan)
+
+omit hwf in
+theorem mem_consA {e : Entry} : e ∈ consA f ↔ e ∈ f.cons ∧ e.con.ctype ≠ .dan := by
+  unfold consA; simp
+
+/-- The reader creates every construct other than the domain ancillaries exactly once from the
+data variable's dimensions and its `coordinates`, `cell_measures`, `ancillary_variables`. -/
+theorem readOrder_perm : (readOrder f).Perm (consA f) := by
+  have hnd : (consA f).Nodup := by unfold consA; exact (cons_nodup hwf).filter _
+  rw [List.perm_ext_iff_of_nodup _ hnd]
   · intro e
+    rw [mem_consA]
     unfold readOrder
     simp only [List.mem_append]
     constructor
     · rintro ((((h | h) | h) | h) | h)
       · obtain ⟨a, _, h⟩ := List.mem_filterMap.mp h
-        exact (dimCoordOf_some h).1
+        exact ⟨(dimCoordOf_some h).1, by rw [(dimCoordOf_some h).2.1]; decide⟩
       · obtain ⟨a, _, _, h⟩ := mem_scalarDims.mp h
-        exact (dimCoordOf_some h).1
-      · exact (mem_ofType.mp (mem_sortEntries.mp h)).1
-      · exact (mem_ofType.mp (mem_sortEntries.mp h)).1
-      · exact (mem_ofType.mp h).1
-    · intro he
+        exact ⟨(dimCoordOf_some h).1, by rw [(dimCoordOf_some h).2.1]; decide⟩
+      · have := mem_ofType.mp (mem_sortEntries.mp h)
+        exact ⟨this.1, by rw [this.2]; decide⟩
+      · have := mem_ofType.mp (mem_sortEntries.mp h)
+        exact ⟨this.1, by rw [this.2]; decide⟩
+      · have := mem_ofType.mp h
+        exact ⟨this.1, by rw [this.2]; decide⟩
+    · rintro ⟨he, hnd⟩
       cases ht : e.con.ctype with
       | dim =>
         obtain ⟨a, _, h2, h3⟩ := wf_dim hwf he ht
@@ -96,6 +109,7 @@ theorem readOrder_perm : (readOrder f).Perm f.cons := by
       | aux => left; left; right; exact mem_sortEntries.mpr (mem_ofType.mpr ⟨he, ht⟩)
       | msr => left; right; exact mem_sortEntries.mpr (mem_ofType.mpr ⟨he, ht⟩)
       | fan => right; exact mem_ofType.mpr ⟨he, ht⟩
+      | dan => exact absurd ht hnd
   · unfold readOrder
     have hdim1 : ∀ e ∈ f.dataAxes.filterMap f.dimCoordOf, e.con.ctype = .dim := by
       intro e he
@@ -159,7 +173,7 @@ def axSig (f : MField) (π : Key → Key) (a : Key) : Key × Nat × Bool :=
   (π a, ((f.axis? a).map (·.size)).getD 0, ((f.axis? a).map (·.unlimited)).getD false)
 
 section
-variable {o : Opts} {f : MField} {names : List (Slot × String)} (hwf : WFField f)
+variable {o : Opts} {f : MField} {names : List (Slot × String)} (hwf : WFFieldB f)
 include hwf
 
 theorem mem_scalarOrder {e : Entry} : e ∈ scalarOrder f ↔
@@ -212,7 +226,7 @@ theorem axisOrder_perm : (axisOrder f).Perm f.axisKeys := by
       · exact Or.inl hd
       · right
         obtain ⟨ka, hka, hk⟩ := mem_axisKeys.mp hak
-        have hne := (hwf.2.2.2.2.2 ka hka (by rw [hk]; exact hd)).2.2
+        have hne := (hwf.2.2.2.2.2.1 ka hka (by rw [hk]; exact hd)).2.2
         rw [hk] at hne
         obtain ⟨e, es, hes⟩ := List.exists_cons_of_ne_nil hne
         have he : e ∈ f.spanning a := by rw [hes]; exact List.mem_cons_self
@@ -264,7 +278,7 @@ theorem pi_outside {e : Entry} (he : e ∈ f.cons) {a : Key} (hax : e.axes = [a]
   · exact pi_scalarAux hwf had he hty hax
 
 theorem read_axes_sig (hg : GoodNames f (wfAx f) names) :
-    (readVar (wfFile o f names) (dataVar o f (wfAx f) names)).axes.map (axisSig id)
+    (readVarA (wfFile o f names) (dataVar o f (wfAx f) names)).axes.map (axisSig id)
       = (axisOrder f).map (axSig f (piOf f names)) := by
   rw [read_axes hwf hg]
   unfold axisOrder
@@ -284,7 +298,7 @@ theorem read_axes_sig (hg : GoodNames f (wfAx f) names) :
     intro e he
     obtain ⟨hmem, a, hax, had, hak⟩ := (mem_scalarOrder hwf).mp he
     obtain ⟨ka, hka, hk⟩ := mem_axisKeys.mp hak
-    obtain ⟨h1, h2, _⟩ := hwf.2.2.2.2.2 ka hka (by rw [hk]; exact had)
+    obtain ⟨h1, h2, _⟩ := hwf.2.2.2.2.2.1 ka hka (by rw [hk]; exact had)
     simp only [Function.comp]
     unfold axisSig axSig axis1
     rw [hax]
@@ -302,7 +316,7 @@ end Cfdm.Codec
 namespace Cfdm.Codec
 
 section
-variable {o : Opts} {f : MField} {names : List (Slot × String)} (hwf : WFField f) (hg : GoodNames f (wfAx f) names)
+variable {o : Opts} {f : MField} {names : List (Slot × String)} (hwf : WFFieldB f) (hg : GoodNames f (wfAx f) names)
 include hwf hg
 
 /-- The slot whose name an axis is renamed to. -/
@@ -314,7 +328,7 @@ theorem pi_slot {a : Key} (hak : a ∈ f.axisKeys) :
     obtain ⟨h1, h2⟩ := dimSlot_mem hwf hg hak hs
     exact ⟨s, h1, h2, pi_data hwf hak hd hs, Or.inl ⟨hd, hs⟩⟩
   · obtain ⟨ka, hka, hk⟩ := mem_axisKeys.mp hak
-    have hne := (hwf.2.2.2.2.2 ka hka (by rw [hk]; exact hd)).2.2
+    have hne := (hwf.2.2.2.2.2.1 ka hka (by rw [hk]; exact hd)).2.2
     rw [hk] at hne
     obtain ⟨e, es, hes⟩ := List.exists_cons_of_ne_nil hne
     have he : e ∈ f.spanning a := by rw [hes]; exact List.mem_cons_self
@@ -381,8 +395,8 @@ theorem kappa_inj : InjOn (kappaOf names) (f.cons.map Entry.key) := by
   injection this
 
 omit hwf hg in
-theorem read_props : (readVar (wfFile o f names) (dataVar o f (wfAx f) names)).props.Perm f.props := by
-  unfold readVar
+theorem read_props : (readVarA (wfFile o f names) (dataVar o f (wfAx f) names)).props.Perm f.props := by
+  unfold readVarA
   simp only
   have hg' : (wfFile o f names).globals = f.props.filter isGlobal := rfl
   have ha : (dataVar o f (wfAx f) names).attrs = f.props.filter (fun p => !isGlobal p) := rfl
@@ -432,7 +446,7 @@ theorem pi_free {a : Key} (ha : a ∉ f.axisKeys) : piOf f names a = a := by
   rfl
 
 /-- The keys of the axes read back are names of dimensions or variables of the file. -/
-theorem read_axisKeys {a : Key} (ha : a ∈ (readVar (wfFile o f names) (dataVar o f (wfAx f) names)).axisKeys) :
+theorem read_axisKeys {a : Key} (ha : a ∈ (readVarA (wfFile o f names) (dataVar o f (wfAx f) names)).axisKeys) :
     a ∈ (wfFile o f names).dims.map (·.name) ∨ a ∈ (wfFile o f names).vars.map (·.name) := by
   unfold MField.axisKeys at ha
   rw [read_axes hwf hg, List.map_append, List.mem_append] at ha
@@ -460,39 +474,6 @@ theorem read_axisKeys {a : Key} (ha : a ∈ (readVar (wfFile o f names) (dataVar
       unfold NcFile.var? at hv
       exact ⟨List.mem_of_find?_eq_some hv, mainVar_name _ _ _ _⟩
     exact List.mem_map.mpr ⟨_, h1, h2⟩
-
-/-- The field read from the data variable of the written file is the original field up to
-construct keys and insertion order. -/
-theorem read_equiv
-    (hfree : ∀ cm ∈ f.cms, ∀ a ∈ cm.axes, a ∉ f.axisKeys →
-      a ∉ (wfFile o f names).dims.map (·.name) ∧ a ∉ (wfFile o f names).vars.map (·.name)) :
-    Equiv f (readVar (wfFile o f names) (dataVar o f (wfAx f) names)) := by
-  refine ⟨piOf f names, kappaOf names, pi_inj hwf hg, kappa_inj hwf hg, read_props, ?_, ?_, ?_, ?_, ?_, ?_⟩
-  · -- data
-    unfold readVar dataVar
-    simp
-  · -- data axes
-    exact dataVar_dims (o := o) hwf
-  · -- axes
-    rw [read_axes_sig hwf hg, axes_eq_keys hwf.1]
-    exact (axisOrder_perm hwf).map _
-  · -- constructs
-    rw [read_cons hwf hg, List.map_map]
-    have : (readOrder f).map (renEntry id id ∘ rd o f names) = (readOrder f).map (renEntry (piOf f names) (kappaOf names)) := by
-      apply List.map_congr_left
-      intro e he
-      exact rd_ren hwf hg ((readOrder_perm hwf).mem_iff.mp he)
-    rw [this]
-    exact (readOrder_perm hwf).map _
-  · -- cell methods
-    rfl
-  · intro cm hcm a ha hak
-    refine ⟨pi_free hwf hak, ?_⟩
-    intro hin
-    obtain ⟨h1, h2⟩ := hfree cm hcm a ha hak
-    rcases read_axisKeys hwf hg hin with h | h
-    · exact h1 h
-    · exact h2 h
 
 end
 
